@@ -148,6 +148,33 @@ def run(ctx, ck) -> None:
                     layout = d is not None and 'join' in ast.unparse(d.value)
     ck.expect('E3', layout, rew, 'the input layout must equal the output layout with the free letter replaced by the contracted one (ordered string comparison)',
               'the layout guard (an ordered `!=` comparison of the input subscripts with the expected layout string) is gone or weakened: subscripts whose input and output axis orders differ are transposed incorrectly instead of being refused', instance='layout guard')
+    # E4: the swap exchanges single positions found with .index(): a letter repeated inside the blocks subscripts
+    # (a diagonal such as 'ijj,j->i') must therefore be refused, or the swap must replace every occurrence
+    src = ast.unparse(rew)
+    uses_index = any(isinstance(n, ast.Call) and isinstance(n.func, ast.Attribute) and n.func.attr == 'index' and isinstance(n.func.value, ast.Name) and n.func.value.id == lefts_n for n in ast.walk(rew))
+    replaces_all = any(isinstance(n, ast.Call) and isinstance(n.func, ast.Attribute) and n.func.attr in ('translate', 'replace') and isinstance(n.func.value, ast.Name) and n.func.value.id == lefts_n
+                       and not (n.args and isinstance(n.args[0], ast.Constant) and n.args[0].value == '...') for n in ast.walk(rew))
+    repeat_guard = False
+    for fs in raw:
+        for f in fs:
+            txt = ' '.join(sorted(show(x) for x in f[1])) if f[0] in ('ne', 'eq') else (show(f[1]) + ' ' + show(f[2]) if f[0] in ('lt', 'le') else '')
+            if f[0] in ('ne', 'lt', 'le') and 'len(' in txt and 'set(' in txt and lefts_n in txt:
+                repeat_guard = True
+            if f[0] in ('ne', 'lt', 'le') and '.count(' in txt and lefts_n in txt:
+                repeat_guard = True
+    # a guard may be written on a derived name (letters = lefts.replace('...', ''))
+    if not repeat_guard:
+        derived_names = {st.targets[0].id for st in rew.body if isinstance(st, ast.Assign) and isinstance(st.targets[0], ast.Name) and lefts_n in ast.unparse(st.value) and 'set(' not in ast.unparse(st.value)}
+        for fs in raw:
+            for f in fs:
+                txt = ' '.join(sorted(show(x) for x in f[1])) if f[0] in ('ne', 'eq') else (show(f[1]) + ' ' + show(f[2]) if f[0] in ('lt', 'le') else '')
+                if f[0] in ('ne', 'lt', 'le') and 'len(' in txt and 'set(' in txt and any(d in txt for d in derived_names):
+                    repeat_guard = True
+    ck.expect('E4', (not uses_index) and replaces_all or repeat_guard, rew,
+              'a letter repeated inside the blocks subscripts is refused (the swap exchanges single positions)' if repeat_guard else 'the swap replaces every occurrence of the two letters',
+              'the letter swap exchanges the *first* occurrences found with .index() and nothing refuses a letter repeated inside the blocks subscripts: for a diagonal such as '
+              "'ijj,j->i' the transpose gets 'jij,j->i' instead of 'jii,j->i' - accepted and wrong (silently, when the axis sizes coincide)", instance='repeated letters')
+
     # the return is reached only after all guards
     rets = [p for p in function_paths(rew) if p.exit == 'return']
     ck.expect('E3', len(rets) == 1 and sum(1 for ev in rets[0].events if ev[0] == 'cond') >= 4, rew, 'the single return is dominated by all rejections',
